@@ -513,10 +513,19 @@ fn compare_meta(path: &str, req: &Val, got: Option<&Val>, out: &mut Vec<(String,
 
 /// oracle "fieldwise": steps = [compile, raw decompile]; the request is parsed from the source input.
 pub fn oracle_fieldwise(w: &mut Worker, case: &Case) -> Vec<Violation> {
-    let outs = w.golden(case);
+    let all = w.golden(case);
     let mut v = vec![];
-    let tool = if case.steps[0].argv.iter().any(|a| a == "--mission") { "trumsg-mission".to_string() } else { case.steps[0].argv[0].clone() };
-    let game = case.steps[0].argv.iter().skip_while(|a| *a != "-g").nth(1).cloned().unwrap_or_default();
+    // meta.compile_step: index of the compile whose output is read back by the step after it
+    // (earlier steps only prepare inputs, e.g. an ANM file to be used as image source)
+    let k0 = case.meta.get("compile_step").and_then(|x| x.as_u64()).unwrap_or(0) as usize;
+    if all.len() <= k0 || all[..k0].iter().any(|o| !o.ok()) {
+        w.stats.probe("fieldwise:setup-failed(skip)");
+        return v;
+    }
+    let outs: Vec<crate::sandbox::Outcome> = all[k0..].to_vec();
+    let case_steps = &case.steps[k0..];
+    let tool = if case_steps[0].argv.iter().any(|a| a == "--mission") { "trumsg-mission".to_string() } else { case_steps[0].argv[0].clone() };
+    let game = case_steps[0].argv.iter().skip_while(|a| *a != "-g").nth(1).cloned().unwrap_or_default();
     if outs.is_empty() {
         return v;
     }
